@@ -9,10 +9,22 @@ KERNELS = GEN_FUNCS
 LEVEL_TEXT = ("Theorems about the get_state/set_state kernels as regenerated from support.py on every run (tier-B translation: thread -> list of array writes): "
               "layout = concatenation of the selected components in bit order at consecutive addresses (all sizes, all signatures, by reasoning per bit), masked worlds untouched, "
               "only the own world's row is touched, set followed by get returns the input. The translated kernels are validated against the real launches (interception), "
-              "and the real get_state/set_state are compared with mujoco.mj_getState/mj_setState on random models, signatures and masks (sampled).")
+              "and the real get_state/set_state are compared with mujoco.mj_getState/mj_setState (a) on random models, signatures and masks and (b) over a deterministic "
+              "signature schedule on models where every component has non-zero size and nhistory != na: every single component, every prefix, every suffix, all-but-one, "
+              "adjacent pairs, component+PLUGIN, the empty and PLUGIN-only signatures on EVERY seed, plus a seed-indexed window of a fixed permutation of all 2^NSTATE "
+              "signatures (windows of consecutive seeds tile the whole set); masks none/101/010/000/111 in rotation; the reference is one MjData per world, Data fields "
+              "are written and read directly (not through the code under test).")
 LEVEL_NOTE = "Trusted: Lean kernel, the tier-B translator (validated by launch interception on every run), host-side glue (signature range check) is exercised, not proved."
-ASSUMPTIONS = ["float payloads are copied, so agreement is exact; eq_active goes through float<->bool",
+ASSUMPTIONS = ["float payloads are copied, so agreement is exact (payloads are float32-exact multiples of 1/4); eq_active goes through float<->bool",
                "host wrapper (ValueError for sig >= 2^NSTATE, active=None handling) is tested, not modelled"]
+RULE = ("(a) random (signature, active mask) on a model with every state component present (free/ball/hinge/slide, mocap, equalities, act, delay history, userdata), 1-3 worlds, "
+        "integer-valued payloads unique-ish per cell; kernel interception: every task of the real get/set launches vs the regenerated Lean kernel. "
+        "(b) signature sweep, 3 worlds with different contents, 2 (quick) / 4 (thorough) of 4 model variants in rotation (delay on a stateless motor / a stateful actuator / "
+        "a sensor / all three; 1-3 mocap bodies, 2-3 equalities, 1-5 userdata; nhistory != na asserted, all 13 payload components non-empty asserted): 13 singles, 14 prefixes, "
+        "13 suffixes, 13 all-but-one, 12 adjacent pairs, 13 component+PLUGIN, empty, PLUGIN alone on every seed + 64 (quick) / 400 (thorough) signatures from the seed's window "
+        "of the permutation i -> (10007 i + 4099) mod 2^NSTATE; for each: get_state vs mj_getState per world (sentinel on masked worlds, Data unchanged by the whole get pass), "
+        "set_state vs mj_setState per world by comparing all 13 Data fields (classified set-mismatch / frame / mask), set->get round trip; Data from make_data and put_data "
+        "alternately; distinct = distinct (variant, signature, mask); 'features' counts every signature class, mask and variant exercised.")
 XML = """
 <mujoco>
   <option timestep="0.01"/>
@@ -149,17 +161,223 @@ def _cases(ctx, ncases, intercept):
   return evals, len(distinct), samples, findings, kc
 
 
+# ---------------------------------------------------------------------------------------------------------------------
+# Exhaustive-in-rotation signature sweep (added after seeded changes C15a / C15b).
+# Every component has non-zero size in every variant; na != nhistory; the delayed element rotates between a stateful
+# actuator, a stateless motor and a sensor, so the HISTORY block has a different size than every neighbouring block.
+# ---------------------------------------------------------------------------------------------------------------------
+XML_SWEEP = """
+<mujoco>
+  <option timestep="0.01"/>
+  <worldbody>
+    MOCAP
+    <body name="a" pos="0 0 .5"><freejoint/><geom size=".1"/>
+      <body name="b" pos=".3 0 0"><joint name="h" type="hinge" axis="0 1 0"/><geom size=".05"/>
+        <body name="c" pos=".2 0 0"><joint name="s" type="slide" axis="1 0 0"/><geom size=".04"/></body></body></body>
+    <body name="d" pos="1 0 .5"><joint name="bl" type="ball"/><geom size=".1"/></body>
+  </worldbody>
+  <equality><connect name="eq0" body1="a" body2="d" anchor="0 0 0"/><joint name="eq1" joint1="h" joint2="s" active="false"/>EQX</equality>
+  <actuator>
+    <motor joint="h" DELAY_MOTOR/>
+    <general joint="s" dyntype="filter" dynprm="0.1" DELAY_FILTER/>
+    <general joint="h" dyntype="integrator" gainprm="3" biastype="affine" biasprm="0 -3 0"/>
+    ACTX
+  </actuator>
+  <sensor><jointpos joint="s" DELAY_SENSOR/></sensor>
+  <size nuserdata="NUSER"/>
+</mujoco>
+"""
+# (mocap bodies, extra equality, extra stateful actuator, delay on motor / filter / sensor, nuserdata)
+SWEEP_VARIANTS = [
+  dict(nmocap=1, eqx=False, actx=False, motor='delay="0.03" nsample="4"', filt="", sensor="", nuser=3),
+  dict(nmocap=2, eqx=True, actx=True, motor="", filt='delay="0.02" nsample="3"', sensor="", nuser=1),
+  dict(nmocap=1, eqx=False, actx=True, motor="", filt="", sensor='delay="0.02" nsample="3"', nuser=5),
+  dict(nmocap=3, eqx=True, actx=False, motor='delay="0.02" nsample="2"', filt='delay="0.03" nsample="4"', sensor='delay="0.02" nsample="3"', nuser=2),
+]
+# field of Data / MjData per state bit, in bit order (PLUGIN, bit 13, has no field: size 0 without plugins)
+STATE_FIELDS = ["time", "qpos", "qvel", "act", "history", "qacc_warmstart", "ctrl", "qfrc_applied", "xfrc_applied", "eq_active",
+                "mocap_pos", "mocap_quat", "userdata"]
+MASKS = [None, (True, False, True), (False, True, False), (False, False, False), (True, True, True)]
+
+
+def _sweep_model(v):
+  import mujoco
+  xml = XML_SWEEP
+  xml = xml.replace("MOCAP", "".join(f'<body name="mocap{i}" mocap="true" pos="{i} 0 1"><geom size=".05"/></body>' for i in range(v["nmocap"])))
+  xml = xml.replace("EQX", '<weld name="eq2" body1="c" body2="mocap0"/>' if v["eqx"] else "")
+  xml = xml.replace("ACTX", '<general joint="bl" gear="0 1 0" dyntype="filterexact" dynprm="0.2"/>' if v["actx"] else "")
+  xml = xml.replace("DELAY_MOTOR", v["motor"]).replace("DELAY_FILTER", v["filt"]).replace("DELAY_SENSOR", v["sensor"])
+  xml = xml.replace("NUSER", str(v["nuser"]))
+  return mujoco.MjModel.from_xml_string(xml), xml
+
+
+def _signatures(NSTATE, seed, nrot):
+  """Structured signatures (every one of them on every seed) + nrot members of a seed-dependent window of a fixed
+  permutation of ALL 2^NSTATE signatures (the windows of consecutive seeds tile the whole set). -> [(sig, tag)]"""
+  K = NSTATE - 1  # bits with a payload; bit K is PLUGIN (empty)
+  full = (1 << K) - 1
+  plugin = 1 << K
+  out = []
+  out += [(1 << k, "single") for k in range(K)]
+  out += [((1 << (k + 1)) - 1, "prefix") for k in range(NSTATE)]
+  out += [(full & ~((1 << k) - 1), "suffix") for k in range(K)]
+  out += [(full & ~(1 << k), "all-but-one") for k in range(K)]
+  out += [((1 << k) | (1 << (k + 1)), "adjacent-pair") for k in range(K - 1)]
+  out += [(plugin | (1 << k), "single+plugin") for k in range(K)]
+  out += [(0, "empty"), (plugin, "plugin-alone")]
+  N = 1 << NSTATE
+  out += [((i * 10007 + 4099) % N, "rotation") for i in range(seed * nrot, (seed + 1) * nrot)]  # odd multiplier: a permutation of 0..N-1
+  seen, res = set(), []
+  for s, tag in out:
+    if s not in seen:
+      seen.add(s)
+      res.append((s, tag))
+  return res
+
+
+def _snap(d):
+  return {f: getattr(d, f).numpy().copy() for f in STATE_FIELDS}
+
+
+def _ref_field(mjd, f):
+  return np.float64(mjd.time) if f == "time" else np.asarray(getattr(mjd, f))
+
+
+def _sweep(ctx, nmodels, nrot, salt=0):
+  """get_state / set_state over the whole signature schedule versus mujoco.mj_getState / mj_setState applied to one MjData
+  per world (the reference never goes through the code under test: Data fields are written and read directly)."""
+  import mujoco
+  import warp as wp
+  import mujoco_warp as mjw
+  from collections import Counter
+  rng = np.random.default_rng(ctx.seed * 1000 + 1515 + salt)
+  NSTATE = int(mujoco.mjtState.mjNSTATE)
+  EQ = int(mujoco.mjtState.mjSTATE_EQ_ACTIVE)
+  NW = 3
+  SENT = -777.0
+  findings, feats, evals, distinct = [], Counter(), 0, set()
+  seen = Counter()
+
+  def find(what, site, trig, **kw):
+    seen[(site, trig)] += 1
+    if seen[(site, trig)] <= 12:  # replay data for the first few of each kind is enough
+      findings.append(dict(what=what, site=site, trigger_id=trig, **kw))
+
+  sigs = _signatures(NSTATE, ctx.seed + salt, nrot)
+  for j in range(nmodels):
+    vi = (ctx.seed + salt + j) % len(SWEEP_VARIANTS)
+    mjm, xml = _sweep_model(SWEEP_VARIANTS[vi])
+    sizes = [mujoco.mj_stateSize(mjm, 1 << k) for k in range(NSTATE)]
+    # non-vacuity of the scene: every component present, history block unlike its neighbours
+    assert all(n > 0 for n in sizes[:NSTATE - 1]) and mjm.nhistory != mjm.na, (sizes, mjm.na, mjm.nhistory)
+    feats[f"variant{vi}: na={mjm.na} nhistory={mjm.nhistory} nmocap={mjm.nmocap} neq={mjm.neq} nuserdata={mjm.nuserdata}"] += 1
+    m = mjw.put_model(mjm)
+    mjds = [mujoco.MjData(mjm) for _ in range(NW)]
+    for mjd in mjds:
+      _randomize(rng, mjm, mjd)
+    if j % 2 == 0:
+      d = mjw.make_data(mjm, nworld=NW)
+      feats["data:make_data"] += 1
+    else:
+      d = mjw.put_data(mjm, mjds[0], nworld=NW)
+      feats["data:put_data"] += 1
+    for f in STATE_FIELDS:  # distinct values per world, written directly into the Data fields
+      arr = getattr(d, f)
+      val = np.stack([np.asarray(_ref_field(x, f)) for x in mjds]).reshape(arr.numpy().shape)
+      wp.copy(arr, wp.array(val.astype(bool) if f == "eq_active" else val.astype(np.float32), dtype=arr.dtype))
+
+    def compare_data(sig, sel, stage):
+      """Data fields of every world versus the per-world MjData reference; classify a difference by where it sits."""
+      now = _snap(d)
+      for k, f in enumerate(STATE_FIELDS):
+        for w in range(NW):
+          ref = np.asarray(_ref_field(mjds[w], f), dtype=np.float64).reshape(-1)
+          got = np.asarray(now[f][w], dtype=np.float64).reshape(-1)
+          if np.array_equal(got, ref.astype(np.float32).astype(np.float64)):
+            continue
+          kw = dict(sig=sig, world=w, field=f, mask=None if sel is None else list(sel), xml=xml, got=got.tolist(), want=ref.tolist())
+          if stage == "get":
+            find(f"get_state modified Data.{f}", "support.get_state", "get-writes-data", **kw)
+          elif sel is not None and not sel[w]:
+            find(f"set_state wrote Data.{f} of a masked world", "support.set_state", "mask", **kw)
+          elif not (sig >> k) & 1:
+            find(f"set_state changed unselected component {f}", "support.set_state", "frame", **kw)
+          else:
+            find(f"Data.{f} after set_state differs from mj_setState", "support.set_state", "set-mismatch", **kw)
+
+    # ---- pass 1: get_state versus mj_getState (Data is constant during this pass)
+    for i, (sig, tag) in enumerate(sigs):
+      sel = MASKS[(i + ctx.seed + j) % len(MASKS)]
+      size = mujoco.mj_stateSize(mjm, sig)
+      assert size == sum(n for k, n in enumerate(sizes) if (sig >> k) & 1)
+      out = wp.full((NW, size), SENT, dtype=float)
+      mjw.get_state(m, d, out, sig, None if sel is None else wp.array(np.array(sel), dtype=bool))
+      got = out.numpy()
+      evals += 1
+      distinct.add((vi, sig, sel))
+      feats["get:" + tag] += 1
+      feats["mask:" + ("none" if sel is None else "".join("TF"[not b] for b in sel))] += 1
+      for w in range(NW):
+        if sel is None or sel[w]:
+          want = np.zeros(size)
+          mujoco.mj_getState(mjm, mjds[w], want, sig)
+          want = want.astype(np.float32)
+        else:
+          want = np.full(size, SENT, dtype=np.float32)
+        if not np.array_equal(got[w], want):
+          find("get_state differs from mj_getState / touches a masked world", "support.get_state", "get-mismatch",
+               sig=sig, sig_class=tag, world=w, mask=None if sel is None else list(sel), xml=xml, got=got[w].tolist(), want=want.tolist())
+    compare_data(-1, None, "get")
+
+    # ---- pass 2: set_state versus mj_setState on the per-world MjData, then the round trip through get_state
+    for i, (sig, tag) in enumerate(sigs):
+      sel = MASKS[(i + 2 * ctx.seed + j + 1) % len(MASKS)]
+      size = mujoco.mj_stateSize(mjm, sig)
+      inp = (rng.integers(-40, 40, size=(NW, size)) + 0.25 * rng.integers(0, 4, size=(NW, size))).astype(np.float32)
+      if sig & EQ:
+        off = mujoco.mj_stateSize(mjm, sig & (EQ - 1))
+        inp[:, off:off + mjm.neq] = rng.integers(0, 2, size=(NW, mjm.neq))
+      st_in = wp.array(inp, dtype=float) if size else wp.zeros((NW, 0), dtype=float)
+      mjw.set_state(m, d, st_in, sig, None if sel is None else wp.array(np.array(sel), dtype=bool))
+      for w in range(NW):
+        if sel is None or sel[w]:
+          mujoco.mj_setState(mjm, mjds[w], inp[w].astype(np.float64), sig)
+      evals += 1
+      feats["set:" + tag] += 1
+      compare_data(sig, sel, "set")
+      back = wp.full((NW, size), SENT, dtype=float)
+      mjw.get_state(m, d, back, sig)
+      bk = back.numpy()
+      for w in range(NW):
+        if sel is None or sel[w]:
+          if not np.array_equal(bk[w], inp[w]):
+            find("set_state followed by get_state does not return the input", "support.set_state", "roundtrip",
+                 sig=sig, sig_class=tag, world=w, mask=None if sel is None else list(sel), xml=xml, got=bk[w].tolist(), want=inp[w].tolist())
+      # a failed write must not hide behind the next signature: put Data back in step with the reference
+      if seen:
+        for f in STATE_FIELDS:
+          arr = getattr(d, f)
+          val = np.stack([np.asarray(_ref_field(x, f)) for x in mjds]).reshape(arr.numpy().shape)
+          wp.copy(arr, wp.array(val.astype(bool) if f == "eq_active" else val.astype(np.float32), dtype=arr.dtype))
+  feats["findings-total(all, incl. not stored)"] = sum(seen.values())
+  return evals, len(distinct), findings, dict(feats)
+
+
 def correspondence(ctx):
   evals, distinct, samples, findings, kc = _cases(ctx, 40 if ctx.thorough else 10, True)
+  ev2, dist2, find2, feats = _sweep(ctx, 4 if ctx.thorough else 2, 400 if ctx.thorough else 64)
   return {
-    "evaluations": evals + kc["tasks"], "distinct_nontrivial": distinct,
-    "rule": "random (signature, active mask) on a model with every state component present (free/ball/hinge/slide, mocap, equalities, act, delay history, userdata), 1-3 worlds, "
-            "integer-valued payloads unique-ish per cell; distinct = distinct (signature, mask); kernel interception: every task of the real get/set launches vs the regenerated Lean kernel",
+    "evaluations": evals + ev2 + kc["tasks"], "distinct_nontrivial": distinct + dist2,
+    "rule": RULE, "features": feats,
     "samples": samples, "kernel_interception": {k: v for k, v in kc.items() if k != "disagreements"},
-    "disagreements": kc["disagreements"], "findings": findings,
+    "disagreements": kc["disagreements"], "findings": findings + find2,
   }
 
 
 def search(ctx, breaks):
   evals, distinct, samples, findings, _ = _cases(ctx, 120, False)
-  return {"oracle": "mujoco.mj_getState/mj_setState + round trip + mask/frame conditions", "cases": evals, "outcome": "witness" if findings else "none", "findings": findings}
+  ev2, dist2, find2, feats = _sweep(ctx, 4, 256, salt=7)
+  findings = findings + find2
+  return {"oracle": "mujoco.mj_getState/mj_setState on per-world MjData (Data fields read/written directly) + round trip + mask/frame conditions; "
+                    "random cases + structured signature schedule + rotation window of all 2^NSTATE signatures",
+          "cases": evals + ev2, "features": feats, "outcome": "witness" if findings else "none", "findings": findings}
